@@ -199,7 +199,7 @@ def run(ctx):
     # ------------------------------------------------------------------ T1
     B = hirq.Body(f, f.body(FROM))
     ctx.analysed['bodies'].add(B.path)
-    outs = absx.Interp(f, B, unroll=1).run()
+    outs = absx.Interp(f, B, unroll=1, combinators=True).run()
     succ = [o for o in outs if o.kind in ('val', 'ret') and o.val[0] == 'ctor' and o.val[1].endswith('LdapResultExt')]
     n_struct = 0
     for o in succ:
@@ -217,7 +217,8 @@ def run(ctx):
         ok = ok and any(a == ('lit', 10) or a == ('cast', ('ctor', 'Types::Enumerated', ()), 'u64') for x in mid for a in x[2][1:])
         mcl = [x for x in absx.leaves(rc, lambda x: x[0] == 'call' and x[1].endswith('match_class'))]
         ok = ok and any(a == ('ctor', 'TagClass::Universal', ()) for x in mcl for a in x[2][1:])
-        ctx.add('T1.result-code', 'child 0', loc(B.root), ok, 'resultCode is not parse_uint of child 0 as universal ENUMERATED primitive: %s' % absx.fmt(rc)[:120])
+        ctx.add('T1.result-code', 'child 0', loc(B.root), ok, 'resultCode is not parse_uint of child 0 as universal ENUMERATED primitive: %s%s' % (absx.fmt(rc)[:120],
+                ' - on this path the code handed to the caller is not decoded from the response at all (the default of the integer type is 0 = success): a response whose resultCode element is missing, of another class or tag, or constructed must fail to decode, not pass success()' if not nths(rc) else ''))
         for name, ordn in (('matched', 1), ('text', 2)):
             t = rf.get(name, ('unk',))
             ok = nths(t) == [ordn] and 'from_utf8' in calls_in(t) and 'expect_primitive' in calls_in(t)
